@@ -31,7 +31,7 @@ def shards(tier):
 def gates(c, tier):
     out = []
     for k in ("outcome:messages", "outcome:wait", "outcome:ProtocolError", "part:random", "part:operator", "part:bytesub", "part:truncate", "part:valid-into-history", "part:large-bytewise",
-              "part:nest", "part:very-large-delivery", "part:custom-type-refuses", "part:long-non-ascii-diagnostic", "pending-output-before-input", "part:low-stack-headroom", "post-error-receive-refused", "post-error-send-refused", "response:notice-checked", "response:unbind-checked"):
+              "part:nest", "part:blank-diagnostic", "part:very-large-delivery", "part:custom-type-refuses", "part:long-non-ascii-diagnostic", "pending-output-before-input", "part:low-stack-headroom", "post-error-receive-refused", "post-error-send-refused", "response:notice-checked", "response:unbind-checked"):
         if c.get(k, 0) == 0:
             out.append(f"never observed: {k}")
     cells = [k for k in c if k.startswith("cell:")]
@@ -335,6 +335,13 @@ def _run_shard(ctx: Ctx, acc: Acc):
                     do("long-non-ascii-diagnostic", role, "opened-ops", data, [])
                     data = rfc4511.encode(("SearchResultDone", 999, ((80, diag[:300], diag, None),), ()))
                     do("long-non-ascii-diagnostic", role, "opened-ops", data, [])
+    # (j) a notice of disconnection / refused result whose diagnostic text is blank in various ways
+    if ctx.shard % 4 == 1:
+        for diag in (" ", "  ", "\x00", " \x00 ", "\n", "\r\n", "\t", "\u00a0", "\u2028", "\x00\x00\x00"):
+            for role in ROLES:
+                for hist in ("fresh", "opened-ops", "binding"):
+                    do("blank-diagnostic", role, hist, rfc4511.encode(("ExtendedResponse", 0, ((52, "", diag, None), NOTICE_OID, None), ())), [])
+                    do("blank-diagnostic", role, hist, rfc4511.encode(("ExtendedResponse", 0, ((52, diag, diag, (diag,)), NOTICE_OID, diag.encode()), ())), [])
     # (f) moderately nested input received with little stack headroom left by the application
     for j in range(24):
         if j % ctx.nshards != ctx.shard:
